@@ -72,15 +72,24 @@ def run(a, rep, TypesBuild, tref):
             rep.cap("probe error for %s: %s" % (name, resp))
             continue
         label = "%s:%s" % (kind, name if shape is None else "union{%s}" % shape.text)
-        for (text, cls, nm), res in zip(cases, resp["results"]):
-            for side in ("c", "s", "a"):
+        # the same documents as Smile (rendered by plain serde_smile): sides "C" / "S"
+        sresp = tb.probe(ci).ask({"ty": "%s:%s" % (cname, name), "op": "smile_raw", "docs": [c[0] for c in cases]})
+        sres = sresp.get("results") or [{}] * len(cases)
+        for (text, cls, nm), res, sm in zip(cases, resp["results"], sres):
+            res = dict(res)
+            # listed union members are typed: their JSON spelling of uuid / binary / non-finite
+            # doubles is not the Smile one (C02 sends those through Conjure's own Smile
+            # serializer); enum names and unlisted variants (payload = any) are encoding-neutral
+            if "skip" not in sm and not _wide(text) and (kind == "enum" or cls != "listed"):
+                res["C"], res["S"] = sm.get("c"), sm.get("s")
+            for side in ("c", "s", "a", "C", "S"):
                 r = res.get(side)
                 if r is None:
                     continue
                 rep.evaluations += 1
                 rep.transitions += 1
                 case = {"type": name, "config": cname, "doc": text, "side": side}
-                where = {"c": "client", "s": "server", "a": "any"}[side]
+                where = {"c": "client", "s": "server", "a": "any", "C": "smile-client", "S": "smile-server"}[side]
                 sig = lambda k: "C10|%s|%s|%s|%s" % (k, where, label, "exhaustive" if cfg["exhaustive"] else "default")
                 if r.get("panic"):
                     rep.violation(sig("panic"), "%s panicked on %s" % (label, text), case)
@@ -130,6 +139,12 @@ def run(a, rep, TypesBuild, tref):
                 "inputs = every listed value / variant document, unlisted enum names over [A-Z0-9_] up to the length bound and multi-word names, ill-formed names, unlisted variant names x JSON payloads in both member orders; "
                 "through the client and server deserializers and through `any`, under the default and the exhaustive configuration")
     rep.assumptions.append("an enum value named UNKNOWN and an empty enum are rejected by the Conjure compiler and are not enumerated")
+
+
+def _wide(text):
+    """integers beyond i64 have no common Smile rendering between serde_json and Smile readers"""
+    import re
+    return any(len(m.lstrip("-")) >= 19 for m in re.findall(r"-?\d+", text))
 
 
 def _json_eq(a, b):
